@@ -81,7 +81,7 @@ fn public_gens<S: ShortGroupSignatureScheme>(schema: &credx::presentation::Prese
 }
 
 /// every public test of the catalogue that evaluates differently on the two candidates
-fn distinguishers(view: &View, gens: &[(String, G1Projective)], m0: &Scalar, m1: &Scalar) -> Vec<String> {
+fn distinguishers(view: &View, gens: &[(String, G1Projective)], m0: &Scalar, m1: &Scalar, others: &[Scalar]) -> Vec<String> {
     let c = view.challenge;
     let mut found = vec![];
     // T1: a transmitted scalar / point is a deterministic image of the candidate
@@ -136,6 +136,19 @@ fn distinguishers(view: &View, gens: &[(String, G1Projective)], m0: &Scalar, m1:
             let d = *a - *b;
             if (d == cm0) != (d == cm1) || (d == -cm0) != (d == -cm1) {
                 found.push(format!("responses-share-nonce:{}:{}", an, bn));
+            }
+        }
+    }
+    // T5: two responses for *different* claims sharing a nonce: s_i - s_j = ±c·(m - o) for another claim value o
+    // the observer knows or can enumerate (the other hidden claims of the scenario)
+    for (i, (an, a)) in plain.iter().enumerate() {
+        for (bn, b) in plain.iter().skip(i + 1) {
+            let d = *a - *b;
+            for o in others {
+                let (x0, x1) = (c * (*m0 - *o), c * (*m1 - *o));
+                if (d == x0) != (d == x1) || (d == -x0) != (d == -x1) {
+                    found.push(format!("responses-of-two-claims-share-nonce:{}:{}", an, bn));
+                }
             }
         }
     }
@@ -206,8 +219,8 @@ fn other_value(c: &ClaimData, rng: &mut Rng) -> ClaimData {
 
 fn c07_suite<S: ShortGroupSignatureScheme>(em: &mut Emitter, base: &mut Rng, suite: &str) {
     let off = if suite == "bbs" { 0 } else { 1 };
-    let kinds = ["commitment", "commitment+range", "verenc", "verenc+scalar", "ved", "revocation", "membership", "signature-only", "equality"];
-    for k in 0..em.n(18, 180) {
+    let kinds = ["commitment", "commitment+range", "verenc", "verenc+scalar", "ved", "revocation", "membership", "signature-only", "equality", "equality2"];
+    for k in 0..em.n(20, 200) {
         if !em.mine(2 * k + off) {
             continue;
         }
@@ -217,12 +230,13 @@ fn c07_suite<S: ShortGroupSignatureScheme>(em: &mut Emitter, base: &mut Rng, sui
             continue;
         }
         let n_claims = 4 + rng.below(3) as usize;
-        let mut mix = Mix { n_creds: if kind == "equality" { 2 } else { 1 }, n_claims, age: rng.range(18, 80), ..Default::default() };
+        let n_claims = if kind == "equality2" { 6 } else { n_claims };
+        let mut mix = Mix { n_creds: if kind.starts_with("equality") { 2 } else { 1 }, n_claims, age: rng.range(18, 80), ..Default::default() };
         // the hidden claim under attack
         let ci = match kind {
             "commitment+range" => 2,
             "revocation" => 0,
-            "membership" | "equality" => 1,
+            "membership" | "equality" | "equality2" => 1,
             _ => 1 + rng.below(n_claims as u64 - 1) as usize,
         };
         mix.disclosed = (0..mix.n_creds).map(|_| LABELS.iter().enumerate().take(n_claims).filter(|(i, _)| *i != ci && *i != 0 && rng.chance(1, 3)).map(|(_, l)| l.to_string()).collect()).collect();
@@ -237,10 +251,42 @@ fn c07_suite<S: ShortGroupSignatureScheme>(em: &mut Emitter, base: &mut Rng, sui
             "ved" => mix.ved = Some(ci),
             "revocation" => mix.revocation = true,
             "membership" => mix.membership = true,
-            "equality" => mix.equality = true,
+            "equality" | "equality2" => mix.equality = true,
             _ => {}
         }
-        let scn = Scn::<S>::build(rng, &mix);
+        let mut scn = Scn::<S>::build(rng, &mix);
+        if kind == "equality2" {
+            // a second, disjoint equality group: claim 5 (city) equal in both credentials, nothing disclosed
+            mix.disclosed = vec![vec![], vec![]];
+            let mut c1 = scn.bundles[1].credential.claims.clone();
+            c1[0] = RevocationClaim::from(format!("c07-eq2-{}", k)).into();
+            c1[5] = scn.bundles[0].credential.claims[5].clone();
+            let b = scn.issuers[1].sign_credential(&c1).unwrap();
+            scn.credentials.insert(scn.sig_ids[1].clone(), b.credential.clone().into());
+            scn.bundles[1] = b;
+            let mut stmts: Vec<Statements<S>> = scn
+                .schema
+                .statements
+                .values()
+                .map(|s| match s {
+                    Statements::Signature(ss) => {
+                        let mut t = (**ss).clone();
+                        t.disclosed = Default::default();
+                        if ss.id == scn.sig_ids[1] {
+                            t.issuer = scn.bundles[1].issuer.clone();
+                        }
+                        t.into()
+                    }
+                    o => o.clone(),
+                })
+                .collect();
+            let mut m = indexmap::IndexMap::new();
+            m.insert(scn.sig_ids[0].clone(), 5usize);
+            m.insert(scn.sig_ids[1].clone(), 5usize);
+            stmts.push(EqualityStatement { id: "eq1".into(), ref_id_claim_index: m }.into());
+            scn.schema = credx::presentation::PresentationSchema::new_with_id(&stmts, &scn.schema.id);
+        }
+        let scn = scn;
         let p = match scn.create() {
             Out::Ok(p) if scn.verify(&p).is_ok() => p,
             _ => continue,
@@ -257,7 +303,9 @@ fn c07_suite<S: ShortGroupSignatureScheme>(em: &mut Emitter, base: &mut Rng, sui
         if view.unparsed > 0 {
             em.violation("c07:harness-view-unparsed", format!("{}: {} scalar leaves of the presentation did not parse — the distinguisher catalogue would be blind to them", suite, view.unparsed), json!({"suite": suite, "kind": kind}));
         }
-        let mut found = distinguishers(&view, &gens, &m0, &m1);
+        // the other claims of the scenario's credentials (side knowledge / enumerable values)
+        let others: Vec<Scalar> = scn.bundles.iter().flat_map(|b| b.credential.claims.iter().enumerate().filter(|(i, _)| *i != ci).map(|(_, c)| c.to_scalar()).collect::<Vec<_>>()).collect();
+        let mut found = distinguishers(&view, &gens, &m0, &m1, &others);
         found.extend(byte_distinguishers(&view, &m0, &m1));
         // two presentations of the same credential: response difference quotient at equal positions
         if let Out::Ok(p2) = scn.create() {
@@ -338,6 +386,23 @@ fn links(a: &View, b: &View) -> Vec<String> {
             for (m, q2) in qs.iter().skip(i + 1) {
                 if q == q2 && !bool::from(q.is_zero()) {
                     out.push(format!("repeated-difference-quotient:{}:{}", n, m));
+                }
+            }
+        }
+    }
+    // responses sharing a nonce inside one presentation: (s_i - s_j)/c = w_i - w_j is a constant of the
+    // credential — equal in two presentations of the same credential
+    {
+        let pick = |v: &View| -> Vec<(String, Scalar)> { v.scalars.iter().filter(|(n, _)| !n.contains("byte_proofs") && !n.ends_with("challenge")).take(48).cloned().collect() };
+        let (sa, sb) = (pick(a), pick(b));
+        if let (Some(ia), Some(ib)) = (Option::<Scalar>::from(a.challenge.invert()), Option::<Scalar>::from(b.challenge.invert())) {
+            for i in 0..sa.len().min(sb.len()) {
+                for j in i + 1..sa.len().min(sb.len()) {
+                    let da = (sa[i].1 - sa[j].1) * ia;
+                    let db = (sb[i].1 - sb[j].1) * ib;
+                    if da == db && !bool::from(da.is_zero()) {
+                        out.push(format!("equal-normalised-response-difference:{}:{}", sa[i].0, sa[j].0));
+                    }
                 }
             }
         }
